@@ -770,8 +770,12 @@ func (db *DB) newTransaction(update, isManaged bool) *Txn {
 	txn := &Txn{
 		update: update,
 		db:     db,
-		count:  1,                       // One extra entry for BitFin.
-		size:   int64(len(txnKey) + 10), // Some buffer for the extra entry.
+		count:  1, // One extra entry for BitFin.
+		// Reserve room for the extra entry as it is sized at commit: the key with its
+		// 8 byte version, the commit timestamp in decimal (at most 20 digits) as the
+		// value, and the two meta bytes. Reserving less lets Set accept a transaction
+		// which Commit then rejects with ErrTxnTooBig.
+		size: int64(len(txnKey) + 8 + 20 + 2),
 	}
 	if update {
 		if db.opt.DetectConflicts {
